@@ -57,6 +57,8 @@ def run(ctx) -> None:
     r5_only_sigma_errors(ctx)
     r6_class_and_original(ctx)
     r7_windash(ctx)
+    from . import c12
+    c12.r6_rebuild_sites(ctx, "C03.R8", scope=("sigma.modifiers",), floor=0)
 
 
 def r1_registry(ctx, reg: dict[str, str]) -> None:
@@ -324,7 +326,13 @@ def r6_class_and_original(ctx) -> None:
             r.ok("C03.R6", f.qual, f"new strings via self.__class__() ({len(own)} site(s))", loc)
         else:
             r.violation("C03.R6", f.qual, f"def {name}", "method no longer instantiates self.__class__ for its result", loc)
-    # reads of .original
+    original_reads(ctx, "C03.R6")
+    r.floor("C03.R6", 7)
+
+
+def original_reads(ctx, rid: str) -> None:
+    """Reads of SigmaString.original (shared with C05.R8)."""
+    r, prog = ctx.r, ctx.prog
     for q, f in sorted(prog.funcs.items()):
         if not f.module.name.startswith(("sigma.types", "sigma.modifiers", "sigma.rule", "sigma.processing", "sigma.conversion")):
             continue
@@ -336,13 +344,12 @@ def r6_class_and_original(ctx) -> None:
                 loc = f"{f.module.relpath}:{n.lineno}"
                 gs = atomic_guards(guards_at(prog, f, n))
                 if q == M + ".SigmaRegularExpressionModifier.modify" and ("len(self.applied_modifiers) > 0", False) in gs:
-                    r.ok("C03.R6", q, "val.original read only for unmodified values (re must see the raw text)", loc)
+                    r.ok(rid, q, "val.original read only for unmodified values (re must see the raw text)", loc)
                 elif q.endswith("SigmaCasedString.from_sigma_string") or f.name in ("__init__", "from_str", "__repr__"):
-                    r.ok("C03.R6", q, f"{unparse(n)} copied/kept, not interpreted", loc)
+                    r.ok(rid, q, f"{unparse(n)} copied/kept, not interpreted", loc)
                 else:
-                    r.violation("C03.R6", q, short(prog.enclosing_stmt(n), 100),
+                    r.violation(rid, q, short(prog.enclosing_stmt(n), 100),
                                 "`original` is the unparsed source text; it is empty or stale for every string rebuilt by an earlier modifier (contains/startswith/endswith add wildcards through +, wide/utf16* assign .s): decisions taken on it ignore the actual value", loc)
-    r.floor("C03.R6", 7)
 
 
 def r7_windash(ctx) -> None:
